@@ -1256,6 +1256,8 @@ func vfRunMachine(t *rapid.T, cfg vfCfg) {
 		m.label("starts-empty")
 	}
 	if cfg.faults {
+		store.failShape = rapid.IntRange(0, 2).Draw(t, "failShape")
+		store.slowPuts = rapid.SampledFrom([]int{0, 0, 4, 16}).Draw(t, "slowPuts")
 		n := rapid.IntRange(0, 3).Draw(t, "faultKind")
 		switch n {
 		case 0:
